@@ -265,7 +265,17 @@ class MonteCarlo(SingleDriver, Generic[MoveType, CriteriaType]):
 
         return dictionary
 
-    todict = to_dict
+    def todict(self) -> dict[str, Any]:
+        """
+        Alias of `to_dict` used by ASE's JSON encoder (restart files). Dispatches to
+        the `to_dict` of the actual class.
+
+        Returns
+        -------
+        dict[str, Any]
+            A dictionary representation of the simulation.
+        """
+        return self.to_dict()
 
     @classmethod
     def from_dict(cls, data: dict[str, Any], **kwargs_override: Any) -> Self:
